@@ -20,6 +20,8 @@ func main() {
 		cmdRun(os.Args[2:])
 	case "check":
 		cmdCheck(os.Args[2:])
+	case "replay":
+		cmdReplay(os.Args[2:])
 	default:
 		fmt.Fprintln(os.Stderr, "unknown command", os.Args[1])
 		os.Exit(2)
@@ -85,4 +87,3 @@ func cmdRun(args []string) {
 	}
 }
 
-func cmdCheck(args []string) {}
